@@ -445,21 +445,35 @@ def _local_read_of(L: CLoop, name: str, target: str) -> bool:
 
 def _py_flip_ok(L: PyLoop, st: ast.AST) -> Tuple[bool, str]:
     txt = ast.unparse(st)[:100]
+    if isinstance(st, ast.AugAssign) and isinstance(st.target, ast.Subscript):
+        # memory[f >> L] ^= 1 << (f & (w-1)): read and store of the same word by construction
+        return isinstance(st.op, ast.BitXor) and _bit_of_f(py_ir(st.value), L), txt
     if isinstance(st, ast.Assign) and isinstance(st.targets[0], ast.Subscript):
         tgt = st.targets[0]
-        rhs = py_ir(st.value)
-        if rhs[0] == 'bin' and rhs[1] == '^':
-            for val, bit in ((rhs[2], rhs[3]), (rhs[3], rhs[2])):
-                if _bit_of_f(bit, L) and val[0] == 'sym':
+        taddr = lx.lin_show(to_lin(py_ir(tgt.slice), L.env))
+        if isinstance(st.value, ast.BinOp) and isinstance(st.value.op, ast.BitXor):
+            for val, bit in ((st.value.left, st.value.right), (st.value.right, st.value.left)):
+                if not _bit_of_f(py_ir(bit), L):
+                    continue
+                if isinstance(val, ast.Name):
                     # val must be the word read from the same address (try / except KeyError pair)
                     reads = [n for n in walk_no_nested(L.fn) if isinstance(n, ast.Assign)
-                             and isinstance(n.targets[0], ast.Name) and n.targets[0].id == val[1]]
-                    same = all(_py_read_addr(L, r.value) == lx.lin_show(to_lin(py_ir(tgt.slice), L.env)) for r in reads)
+                             and isinstance(n.targets[0], ast.Name) and n.targets[0].id == val.id]
+                    same = all(_py_read_addr(L, r.value) == taddr for r in reads)
                     return bool(reads) and same, txt
+                if isinstance(val, ast.Subscript) and L._is_memory(val.value) or \
+                        isinstance(val, ast.Call) and L._call_name(val) in ('mem._get_memory_word',):
+                    return _py_read_addr(L, val) == taddr, txt        # the word read in place:  memory[k] = reader(k) ^ bit
         return False, txt
     for c in [x for x in ast.walk(st) if isinstance(x, ast.Call)]:
         if L._call_name(c) == 'mem.write_bit' and len(c.args) == 2:
             v = c.args[1]
+            if isinstance(v, ast.Name):
+                # `flipped = not mem.read_bit(f)` ... `mem.write_bit(f, flipped)`: a local bound once is read through
+                defs = [n for n in walk_no_nested(L.fn) if isinstance(n, ast.Assign) and len(n.targets) == 1
+                        and isinstance(n.targets[0], ast.Name) and n.targets[0].id == v.id]
+                if len(defs) == 1:
+                    v = defs[0].value
             if isinstance(v, ast.UnaryOp) and isinstance(v.op, ast.Not) and isinstance(v.operand, ast.Call) \
                     and L._call_name(v.operand) == 'mem.read_bit' and norm(v.operand.args[0]) == norm(c.args[0]):
                 return True, txt
@@ -483,7 +497,8 @@ def rule_fastmem(rep: Report, repo: Repo) -> None:
              'segment becomes a generic runtime error instead of a memory-error termination)', 3)
     L = PyLoop(repo, '_run_fast', M.ROLES_PY['_run_fast'])
     for n in walk_no_nested(L.fn):
-        if isinstance(n, ast.Subscript) and isinstance(n.ctx, ast.Load) and L._is_memory(n.value):
+        aug = isinstance(n, ast.Subscript) and isinstance(getattr(n, '_parent', None), ast.AugAssign) and n._parent.target is n        # type: ignore[attr-defined]
+        if isinstance(n, ast.Subscript) and (isinstance(n.ctx, ast.Load) or aug) and L._is_memory(n.value):
             st = n
             while not isinstance(st, ast.stmt):
                 st = st._parent          # type: ignore[attr-defined]
@@ -503,6 +518,19 @@ def rule_fastmem(rep: Report, repo: Repo) -> None:
                                 ok = True
                         if not ok:
                             why = 'KeyError handler does not re-read the same word into the same target'
+            if isinstance(st, ast.AugAssign) and aug:
+                # `memory[k] OP= X` reads the word too: its KeyError handler stores  reader(k) OP X  into the same word
+                for t, h in enclosing_handlers(st):
+                    if 'KeyError' in handler_types(h):
+                        for hs in h.body:
+                            if isinstance(hs, ast.Assign) and isinstance(hs.targets[0], ast.Subscript) and L._is_memory(hs.targets[0].value) \
+                                    and norm(hs.targets[0].slice) == key and isinstance(hs.value, ast.BinOp) and type(hs.value.op) is type(st.op):
+                                for rd, other in ((hs.value.left, hs.value.right), (hs.value.right, hs.value.left)):
+                                    if isinstance(rd, ast.Call) and L._call_name(rd) == 'mem._get_memory_word' and norm(rd.args[0]) == key \
+                                            and norm(other) == norm(st.value) and (rd is hs.value.left or isinstance(st.op, (ast.BitXor, ast.BitOr, ast.BitAnd, ast.Add, ast.Mult))):
+                                        ok = True
+                        if not ok:
+                            why = 'KeyError handler does not store the re-read word combined the same way'
             rep.check(ok, 'C01.FASTMEM', f'_run_fast:memory[{key}]',
                       'fallback to _get_memory_word present' if ok else why, site)
 
